@@ -232,29 +232,89 @@ def valid_sig(sig):
     return True
 
 
+_SESS = None
+
+
+def _bind_task(task):
+    """one (signature shape, chunk of call shapes) in a forked worker: returns the obligation part and the bookkeeping deltas"""
+    from . import c08_bind as B
+    sess = _SESS
+    sig, calls = task
+    z3.set_param('smt.random_seed', sess.seed & 0x7fffffff)
+    ob = Obligation('part', '', '')
+    base = (sess.decider.nq, dict(sess.decider.stats['z3']), dict(sess.decider.stats['cvc5']), sess.decider.stats['disagreements'], sess.feas_queries, sess.unknown_feas, sess.panic_edges_checked)
+    sess.encoded, sess.used_contracts = {}, {}
+    inst = 0
+    try:
+        for call in calls:
+            inst += B.run_shape(sess, ob, sig, call)
+    except (Unsupported, LookupError, StopIteration) as e:
+        ob.inconclusive(f'unsupported: {type(e).__name__} {e}')
+    dz = {k: sess.decider.stats['z3'][k] - base[1][k] for k in base[1]}
+    dc = {k: sess.decider.stats['cvc5'][k] - base[2][k] for k in base[2]}
+    return {'sig': sig, 'paths': ob.paths, 'queries': ob.queries, 'status': ob.status, 'reason': ob.reason, 'witnesses': sorted(ob.witnesses, key=lambda w: ('Optional' in w['sig']['kinds'], not valid_sig(w['sig']), w.get('reference') is None, len(str(w))))[:6], 'inst': inst,
+            'encoded': sess.encoded, 'contracts': sess.used_contracts, 'nq': sess.decider.nq - base[0], 'z3': dz, 'cvc5': dc,
+            'disagreements': sess.decider.stats['disagreements'] - base[3], 'feas': sess.feas_queries - base[4], 'unk': sess.unknown_feas - base[5], 'panic': sess.panic_edges_checked - base[6]}
+
+
 def run_bind(sess):
+    """obligations per signature shape; the (signature, call shape) runs are independent and are spread over forked workers"""
+    global _SESS
+    import multiprocessing
+    import os
     from . import c08_bind as B
     nmax = 2 if sess.tier == 'quick' else 3
     calls = B.call_shapes(sess.tier)
-    for sig in B.signature_shapes(nmax):
-        t1 = time.time()
+    sigs = B.signature_shapes(nmax)
+    tasks = []
+    for sig in sigs:
+        # heavier signatures (many regular parameters) are cut into smaller chunks
+        reg = sig[0] - (sig[1] is not None) - (sig[2] is not None)
+        step = {0: len(calls), 1: 27, 2: 3}.get(reg, 1)
+        for i in range(0, len(calls), step):
+            tasks.append((sig, calls[i:i + step]))
+    _SESS = sess
+    t0 = time.time()
+    workers = int(os.environ.get('VERIF_WORKERS', '12'))
+    with multiprocessing.get_context('fork').Pool(workers) as pool:
+        results = pool.map(_bind_task, tasks, chunksize=1)
+    wall = time.time() - t0
+    for sig in sigs:
         n, a, k = sig
         ob = Obligation(f'C08.bind[n={n},args={a},kwargs={k}]', 'ParametersSpec::collect_inline_impl + collect_slow: the slots receive exactly the values the Python call rules prescribe (positional, by name, defaults, *args tuple, **kwargs dict in order), and the call fails exactly when the rules say so (missing, unexpected, or multiple values)',
                         f'signature of {n} parameters with *args at {a} and **kwargs at {k}; kinds required/optional/defaulted, num_positional and num_positional_only solver-chosen; {len(calls)} call shapes: up to {max(c[0] for c in calls)} positional, {max(c[1] for c in calls)} named, *sequence and **mapping absent or of length up to {max(c[2] or 0 for c in calls)}; names and keys solver-chosen among parameter names and two unknown names')
         inst = 0
-        try:
-            for call in calls:
-                inst += B.run_shape(sess, ob, sig, call)
-        except (Unsupported, LookupError, StopIteration) as e:
-            ob.inconclusive(f'unsupported: {type(e).__name__} {e}')
+        for r in results:
+            if r['sig'] != sig:
+                continue
+            ob.paths += r['paths']
+            ob.queries += r['queries']
+            inst += r['inst']
+            if r['status'] == 'inconclusive':
+                ob.inconclusive(r['reason'])
+            for w in r['witnesses']:
+                ob.fail(w)
+            sess.encoded.update(r['encoded'])
+            for c, v in r['contracts'].items():
+                sess.used_contracts[c] = sess.used_contracts.get(c, 0) + v
+            sess.decider.nq += r['nq']
+            for kk, v in r['z3'].items():
+                sess.decider.stats['z3'][kk] += v
+            for kk, v in r['cvc5'].items():
+                sess.decider.stats['cvc5'][kk] += v
+            sess.decider.stats['disagreements'] += r['disagreements']
+            sess.feas_queries += r['feas']
+            sess.unknown_feas += r['unk']
+            sess.panic_edges_checked += r['panic']
         # witnesses that can be written as a Starlark program first
-        ob.witnesses.sort(key=lambda w: ('Optional' in w['sig']['kinds'], len(str(w))))
+        ob.witnesses.sort(key=lambda w: ('Optional' in w['sig']['kinds'], not valid_sig(w['sig']), w.get('reference') is None, len(str(w))))
         ob.sample = {'instances': inst, 'call_shapes': len(calls)}
         ob.twin = 'sat' if inst else 'unsat'
         if not inst:
             ob.inconclusive('no instance reached (vacuity)')
-        ob.wall_s = time.time() - t1
+        ob.wall_s = wall / len(sigs)
         sess.add(ob)
+    sess.notes.add(f'C08.bind runs are spread over {workers} forked worker processes (solver time in the evidence is the sum over workers)')
 
 
 def run(sess):
